@@ -303,7 +303,9 @@ class NonBondEngine():
                 if gndx_pair not in exclusions:
                     other_atype = self.atypes[gndx_pair]
                     params = self.interaction_matrix[frozenset([current_atype, other_atype])]
-                    force += POTENTIAL_FUNC[potential](dist, point, self.positions[gndx_pair], params)
+                    diff = point - self.positions[gndx_pair]
+                    diff = diff - self.boxsize * np.round(diff / self.boxsize)
+                    force += POTENTIAL_FUNC[potential](dist, point, point - diff, params)
         return force
 
     def compute_bending_probability(self, lp, point, mol_idx, node_b, node_c):
